@@ -322,6 +322,7 @@ FUZZ_FIELDS = [
     ("g", "transform"), ("g", "fill"), ("g", "style"), ("r", "transform"), ("r", "x"), ("r", "width"), ("r", "rx"), ("r", "stroke-width"),
     ("p", "d"), ("p", "transform"), ("p", "stroke"), ("u", "href"), ("u", "x"), ("u", "transform"), ("l", "points"), ("l", "fill"),
     ("s", "viewBox"), ("s", "width"), ("s", "preserveAspectRatio"), ("c", "r"), ("c", "cx"),
+    ("r", "fill-opacity"), ("r", "fill"), ("c", "stroke-opacity"), ("c", "stroke"), ("t", "transform"), ("t", "fill"), ("t", "x"), ("s", "x"),
 ]
 
 
@@ -353,9 +354,9 @@ def fuzz_document(fields):
     return (
         '<svg xmlns="http://www.w3.org/2000/svg" xmlns:xlink="http://www.w3.org/1999/xlink" width="100" height="100">'
         '<g id="g1"%s><rect id="r1" y="1" height="2"%s/><path id="p1"%s/></g>'
-        '<use id="u1"%s/><polyline id="l1"%s/><svg id="s1"%s><circle id="c1"%s/></svg>'
+        '<use id="u1"%s/><polyline id="l1"%s/><svg id="s1"%s><circle id="c1"%s/></svg><text id="t1"%s>t</text>'
         '<rect id="sentinel" x="1" y="2" width="3" height="4" fill="red" stroke="blue" stroke-width="2"/></svg>'
-    ) % (attrs("g"), attrs("r"), attrs("p"), attrs("u"), attrs("l"), attrs("s"), attrs("c"))
+    ) % (attrs("g"), attrs("r"), attrs("p"), attrs("u"), attrs("l"), attrs("s"), attrs("c"), attrs("t"))
 
 
 def fuzz_check(case):
